@@ -3,6 +3,7 @@ package main
 import (
 	"fmt"
 	"math/big"
+	"runtime/debug"
 	"sort"
 	"strings"
 	"time"
@@ -115,7 +116,13 @@ func compareModel(r *Runner, clause string, ev *slashEval) bool {
 			if ev.destPos[p] {
 				kind = "redelegation-destination"
 			}
-			r.Violate(clause, "slash-effect-mismatch:"+kind, fmt.Sprintf("position %s: value after slash %s, reference model %s (before %s)", p, rstr(got), rstr(want), rstr(ev.pre.PosValue(p))))
+			shares := func(s *Snap) string {
+				if d, ok := s.Dels[p]; ok {
+					return d.Shares.String()
+				}
+				return "none"
+			}
+			r.Violate(clause, "slash-effect-mismatch:"+kind, fmt.Sprintf("position %s: value after slash %s, reference model %s (before %s; delegation shares %s -> %s)", p, rstr(got), rstr(want), rstr(ev.pre.PosValue(p)), shares(ev.pre), shares(ev.post)))
 			return false
 		}
 	}
@@ -477,7 +484,7 @@ func (m *monC08) probeHook(r *Runner, va sdk.ValAddress, f sdkmath.LegacyDec) (e
 	ctx := r.Branch()
 	defer func() {
 		if rec := recover(); rec != nil {
-			pan = fmt.Sprintf("panic: %v", rec)
+			pan = fmt.Sprintf("panic: %v%s", rec, allianceFrames(string(debug.Stack())))
 		}
 	}()
 	err = r.W.App.AllianceKeeper.StakingHooks().BeforeValidatorSlashed(ctx, va, f)
@@ -514,4 +521,25 @@ func hookFailed(st *Step) bool {
 		}
 	}
 	return false
+}
+
+// allianceFrames extracts the module's own frames (function names) from a stack trace, innermost first.
+func allianceFrames(stack string) string {
+	var out []string
+	for _, l := range strings.Split(stack, "\n") {
+		if strings.HasPrefix(l, "github.com/terra-money/alliance/x/alliance") {
+			f := strings.TrimPrefix(l, "github.com/terra-money/alliance/x/alliance/")
+			if i := strings.LastIndex(f, "("); i > 0 {
+				f = f[:i]
+			}
+			out = append(out, f)
+			if len(out) == 4 {
+				break
+			}
+		}
+	}
+	if len(out) == 0 {
+		return ""
+	}
+	return " [in " + strings.Join(out, " <- ") + "]"
 }
